@@ -6,6 +6,9 @@
 //	marker            go-co source             reference
 //	ITER[             Iter[ / co.Iter[         ref.Iter[
 //	GEN[T]{ … }GEN    { … }                    { return ref.New(func(ʏ *ref.Y[T]) { … }) }
+//	GENP[T](ps){…}GENP { … }                   { return ref.New(func(ʏ *ref.Y[T]) { func(ps) { … }(names of ps) }) }
+//	                  (the body is the top level of a function whose parameters are ps again, so that a
+//	                   redeclaration `a, b := …` of a parameter keeps Go's meaning in the reference)
 //	YIELD(            Yield( / co.Yield(       ʏ.Yield(
 //	YFROM(            YieldFrom(               ʏ.From(
 //	RETNIL            return nil               return
@@ -102,6 +105,20 @@ func Co(neutral, prefix string, st Style) string {
 		case strings.HasPrefix(s[i:], "ITER["):
 			b.WriteString(p + "Iter[")
 			i += 5
+		case strings.HasPrefix(s[i:], "GENP["):
+			end := matchBracket(s, i+4)
+			if end < 0 || end >= len(s) || s[end] != '(' {
+				panic("render: bad GENP marker in: " + s[i:min(len(s), i+60)])
+			}
+			close := strings.Index(s[end:], "){")
+			if close < 0 {
+				panic("render: bad GENP parameter list")
+			}
+			b.WriteString("{")
+			i = end + close + 2
+		case strings.HasPrefix(s[i:], "}GENP"):
+			b.WriteString("}")
+			i += 5
 		case strings.HasPrefix(s[i:], "GEN["):
 			end := matchBracket(s, i+3)
 			if end < 0 || end >= len(s) || s[end] != '{' {
@@ -150,11 +167,31 @@ func Co(neutral, prefix string, st Style) string {
 // Ref renders the reference text.
 func Ref(neutral, prefix string) string {
 	var b strings.Builder
+	var genpArgs []string
 	s := neutral
 	for i := 0; i < len(s); {
 		switch {
 		case strings.HasPrefix(s[i:], "ITER["):
 			b.WriteString("ref.Iter[")
+			i += 5
+		case strings.HasPrefix(s[i:], "GENP["):
+			end := matchBracket(s, i+4)
+			if end < 0 || end >= len(s) || s[end] != '(' {
+				panic("render: bad GENP marker")
+			}
+			close := strings.Index(s[end:], "){")
+			if close < 0 {
+				panic("render: bad GENP parameter list")
+			}
+			ty := strings.ReplaceAll(s[i+5:end-1], "ITER[", "ref.Iter[")
+			params := strings.ReplaceAll(strings.ReplaceAll(s[end+1:end+close], "ITER[", "ref.Iter["), "§", prefix)
+			genpArgs = append(genpArgs, paramNames(params))
+			b.WriteString("{ return ref.New(func(ʏ *ref.Y[" + ty + "]) { func(" + params + ") {")
+			i = end + close + 2
+		case strings.HasPrefix(s[i:], "}GENP"):
+			args := genpArgs[len(genpArgs)-1]
+			genpArgs = genpArgs[:len(genpArgs)-1]
+			b.WriteString("}(" + args + ") }) }")
 			i += 5
 		case strings.HasPrefix(s[i:], "GEN["):
 			end := matchBracket(s, i+3)
@@ -201,4 +238,16 @@ func Ref(neutral, prefix string) string {
 		}
 	}
 	return b.String()
+}
+
+// paramNames returns the comma-separated names of a parameter list like "a, b int, err error".
+func paramNames(params string) string {
+	var names []string
+	for _, group := range strings.Split(params, ",") {
+		f := strings.Fields(group)
+		if len(f) > 0 {
+			names = append(names, f[0])
+		}
+	}
+	return strings.Join(names, ", ")
 }
